@@ -45,15 +45,20 @@ type c19LegacyErr struct {
 
 func (e *c19LegacyErr) Error() string { return e.Op + ": " + e.Err.Error() }
 
+// c19SliceErr is an error whose values cannot be compared (a multi-error as transports and option sets return them).
+type c19SliceErr []error
+
+func (e c19SliceErr) Error() string { return fmt.Sprintf("%d errors", len(e)) }
+
 type c19ChainCase struct {
-	Leaf   int      `json:"leaf"`   // index into sentinels; -1 fresh errors.New; -2 value error
+	Leaf   int      `json:"leaf"`   // index into sentinels; -1 fresh errors.New; -2 value error; -3 uncomparable (slice-typed) error
 	Layers []string `json:"layers"` // bottom-up
 }
 
 var c19LayerKinds = []string{"wrapError", "wrapErrorf", "wrapErrorWithRetry", "fmt%w", "ConnectionError", "fmt%v", "RequestTimeoutError", "legacyErrField"}
 
 func c19ChainGen(rt *rapid.T) c19ChainCase {
-	c := c19ChainCase{Leaf: rapid.IntRange(-2, len(c19Sentinels)-1).Draw(rt, "leaf")}
+	c := c19ChainCase{Leaf: rapid.IntRange(-3, len(c19Sentinels)-1).Draw(rt, "leaf")}
 	c.Layers = rapid.SliceOfN(rapid.SampledFrom(c19LayerKinds[:6]), 0, 6).Draw(rt, "layers")
 	// the two rarer layer kinds, at most once each
 	if rapid.IntRange(0, 3).Draw(rt, "rto") == 0 {
@@ -74,6 +79,8 @@ func c19ChainRun(tb rapid.TB, c c19ChainCase) {
 		leaf = c19Sentinels[c.Leaf]
 	case c.Leaf == -1:
 		leaf = errors.New("fresh leaf")
+	case c.Leaf == -3:
+		leaf = c19SliceErr{errors.New("first"), errors.New("second")}
 	default:
 		leaf = c19ValueErr{code: 7}
 	}
@@ -130,9 +137,10 @@ func c19ChainRun(tb rapid.TB, c c19ChainCase) {
 	for i := len(nodes) - 2; i >= 0; i-- {
 		reach[i] = reach[i+1] && transparentAbove[i]
 	}
+	comparable := func(e error) bool { _, un := e.(c19SliceErr); return !un }
 	inChain := func(t error) int {
 		for i, nd := range nodes {
-			if nd == t {
+			if comparable(nd) && comparable(t) && nd == t {
 				return i
 			}
 		}
@@ -172,7 +180,9 @@ func c19ChainRun(tb rapid.TB, c c19ChainCase) {
 		check(c19SentinelNames[i], s)
 	}
 	for i, nd := range nodes {
-		check(fmt.Sprintf("node[%d]", i), nd)
+		if comparable(nd) { // (errors.Is cannot find an uncomparable target by equality: nothing to demand)
+			check(fmt.Sprintf("node[%d]", i), nd)
+		}
 	}
 	check("unrelated fresh error", errors.New("unrelated"))
 	check("unrelated value error", c19ValueErr{code: 8})
@@ -315,7 +325,7 @@ func c19Attempt(tb rapid.TB, c c19RetryCase, f *c19Fail, do func(ctx context.Con
 						fired = true
 						if f.Cause == "closed" {
 							go r.conn.peerClose(false)
-						} else {
+						} else if f.Cause != "preCancel" {
 							go cancel()
 						}
 						return // answer withheld
@@ -330,6 +340,9 @@ func c19Attempt(tb rapid.TB, c c19RetryCase, f *c19Fail, do func(ctx context.Con
 	r.connect(tb)
 	before := len(r.peer.emittedPackets())
 	beforeRecv := len(r.peer.received())
+	if cause == "preCancel" {
+		cancel() // the context is already done when the call is made (the request's first packet is answered by nothing)
+	}
 	errCh := make(chan error, 1)
 	go func() { errCh <- do(ctx, r.cli) }()
 	var err error
@@ -482,7 +495,7 @@ func c19RetryRunProp(tb rapid.TB, c c19RetryCase, prop string) {
 			want = errC19Write
 		case "closed":
 			want = ErrClosedTransport
-		case "cancel", "cancelCauseEOF", "cancelCauseApp":
+		case "cancel", "cancelCauseEOF", "cancelCauseApp", "preCancel":
 			want = context.Canceled
 		case "deadline":
 			want = context.DeadlineExceeded
@@ -517,8 +530,11 @@ func c19GenFail(rt *rapid.T, kind string) c19Fail {
 	if kind == "pub2" {
 		f.Pkt = rapid.IntRange(0, 1).Draw(rt, "pkt")
 	}
-	f.Cause = rapid.SampledFrom([]string{"writeerr", "closed", "cancel", "cancel", "cancelCauseEOF", "cancelCauseApp", "deadline"}).Draw(rt, "cause")
+	f.Cause = rapid.SampledFrom([]string{"writeerr", "closed", "cancel", "cancel", "cancelCauseEOF", "cancelCauseApp", "deadline", "preCancel"}).Draw(rt, "cause")
 	f.Write = f.Cause == "writeerr"
+	if f.Cause == "preCancel" {
+		f.Pkt = 0 // the call starts with its context already done
+	}
 	return f
 }
 
